@@ -508,3 +508,325 @@ package chord
 //@   at call RemoveKeys#*: ghost removed := removed + 1
 //@   ensures local-a-failure-is-returned-and-nothing-was-removed: ((ranged == 1 && rerr != nil) ==> (err == rerr && removed == 0)) && ((exported == 1 && xerr != nil) ==> (err == xerr && removed == 0)) && ((imported == 1 && ierr != nil) ==> (err != nil && removed == 0))
 //@   ensures local-success-means-nothing-to-move-or-moved-and-removed: err == nil ==> (ranged == 1 && rerr == nil && (len(rkeys) == 0 || (imported == 1 && ierr == nil && removed == 1)))
+
+// ---- C04: the KV gate. Every KV request runs its handler at most once and returns exactly what the handler
+// returned; when no handler runs the request fails (retryable ErrKVStaleOwnership, or the lookup error) with no
+// effect. The local store is handed to the handler only (a) for replication traffic, or (b) while both the surrogate
+// and predecessor read locks are held, the lifecycle word read under them was Active, the key is not in a range
+// already handed to a joiner (n, surrogate], and the key is in (predecessor, n]. A joining or leaving node holds the
+// surrogate write lock while keys move (RequestToJoin, executeLeave), so a handler on the local store never overlaps
+// a hand-over of its key.
+//@ func kvMiddleware(ctx context.Context, n *LocalNode, key []byte, handler func(ctx context.Context, kv chord.KV, target kvTargetType, id uint64) (V, error)) (r V, err error)
+//@   opt frame=off
+//@   safety off
+//@   use ids48
+//@   requires started: n != nil && n.state != nil && n.state.history != nil && n.ID() < 281474976710656
+//@   ghost calls int = 0
+//@   ghost hid uint64 = 0
+//@   at call Hash#1: assert hashes-the-request-key: callarg0 == key
+//@   at after call Hash#1: ghost hid := callresult
+//@   ghost hres V
+//@   ghost herr error = nil
+//@   ghost repl bool = false
+//@   ghost looked int = 0
+//@   ghost lsucc chord.VNode = nil
+//@   ghost lerr error = nil
+//@   ghost rlocks int = 0
+//@   ghost stateRead int = 0
+//@   ghost st chord.State = 0
+//@   ghost surrChecked bool = false
+//@   ghost inSurr bool = false
+//@   ghost predChecked bool = false
+//@   ghost inPred bool = false
+//@   at after call GetRequestTarget#*: ghost repl := callresult == protocol.Context_KV_REPLICATION
+//@   at call FindSuccessor#*: assert looks-up-the-owner-of-the-key-hash: callarg1 == hid && looked == 0 && !repl
+//@   at after call FindSuccessor#*: ghost lsucc := callresult0
+//@   at after call FindSuccessor#*: ghost lerr := callresult1
+//@   at after call FindSuccessor#*: ghost looked := looked + 1
+//@   at call RLock#*: ghost rlocks := rlocks + 1
+//@   ghost l1 *sync.RWMutex = nil
+//@   ghost l2 *sync.RWMutex = nil
+//@   at call RLock#1: ghost l1 := callarg0
+//@   at call RLock#2: ghost l2 := callarg0
+//@   at call RLock#2: assert the-second-read-lock-is-taken-after-the-state-was-read: rlocks == 2 && stateRead == 1
+//@   at defer RUnlock#1: assert the-first-lock-is-held-until-return: callarg0 == l1 && calls == 0
+//@   at defer RUnlock#2: assert the-second-lock-is-held-until-return: callarg0 == l2 && calls == 0
+//@   at call Get#*: assert the-lifecycle-word-is-read-under-the-surrogate-lock: callarg0 == n.state && rlocks == 1 && stateRead == 0
+//@   at after call Get#*: ghost st := callresult
+//@   at after call Get#*: ghost stateRead := stateRead + 1
+//@   at call Between#1: assume a-nodes-identity-carries-its-ring-id: callarg2 == n.surrogate.ID()
+//@   at call Between#1: assert range-already-handed-to-a-joiner: rlocks == 2 && n.surrogate != nil && callarg0 == n.ID() && callarg1 == hid && callarg3 == true
+//@   at after call Between#1: ghost inSurr := callresult
+//@   at after call Between#1: ghost surrChecked := true
+//@   at call Between#2: assert own-range-from-the-predecessor: rlocks == 2 && n.predecessor != nil && callarg0 == n.predecessor.ID() && callarg1 == hid && callarg2 == n.ID() && callarg3 == true
+//@   at after call Between#2: ghost inPred := callresult
+//@   at after call Between#2: ghost predChecked := true
+//@   at call dyn#*: assert one-handler-call-on-the-right-store: calls == 0 && callarg0 == ctx && callarg3 == hid && ((callarg2 == targetReplication && repl && any(callarg1) == any(n.kv)) || (callarg2 == targetRemote && !repl && looked == 1 && lerr == nil && lsucc.ID() != n.ID() && any(callarg1) == any(lsucc)) || (callarg2 == targetSurrogate && !repl && looked == 1 && lerr == nil && lsucc.ID() == n.ID() && rlocks == 2 && st == chord.Active && stateRead == 1 && surrChecked && inSurr && any(callarg1) == any(n.surrogate)) || (callarg2 == targetLocal && !repl && looked == 1 && lerr == nil && lsucc.ID() == n.ID() && rlocks == 2 && st == chord.Active && stateRead == 1 && (n.surrogate == nil || (surrChecked && !inSurr)) && (n.predecessor == nil || (predChecked && inPred)) && any(callarg1) == any(n.kv)))
+//@   at after call dyn#*: ghost hres := callresult0
+//@   at after call dyn#*: ghost herr := callresult1
+//@   at after call dyn#*: ghost calls := calls + 1
+//@   ensures local-the-handlers-answer-is-the-answer: calls == 1 ==> (r == hres && err == herr)
+//@   ensures local-without-a-handler-the-request-fails-without-effect: calls == 0 ==> (err != nil && r == zero(V))
+//@   ensures local-refusals-are-retryable-or-the-lookup-error: calls == 0 ==> (err == chord.ErrKVStaleOwnership || (looked == 1 && err == lerr && lerr != chord.ErrNodeGone))
+//@   ensures local-a-node-that-is-not-active-serves-nothing-locally: (stateRead == 1 && st != chord.Active) ==> (calls == 0 && err == chord.ErrKVStaleOwnership)
+// ---- C04: the KV entry points hand their own key to the gate and their own arguments to whichever store the gate
+// picked, once, and return exactly what came back (generated by /verif/scripts/gen_kvwrap.py)
+//@ func (n *LocalNode) Put(ctx context.Context, key []byte, value []byte) (err error)
+//@   opt frame=off
+//@   safety off
+//@   use ids48
+//@   requires started: n.state != nil && n.state.history != nil && n.ID() < 281474976710656
+//@   ghost gates int = 0
+//@   ghost gerr error = nil
+//@   at call kvMiddleware#*: assert the-gate-decides-on-this-requests-key: callarg0 == ctx && callarg1 == n && callarg2 == key && gates == 0
+//@   at after call kvMiddleware#*: ghost gerr := callresult1
+//@   at after call kvMiddleware#*: ghost gates := gates + 1
+//@   ensures local-the-gates-answer-is-returned: gates == 1 && err == gerr
+
+//@ func (n *LocalNode) Put$1(ctx context.Context, kv chord.KV, target kvTargetType, id uint64) (r any, err error)
+//@   opt frame=off
+//@   safety off
+//@   ghost ops int = 0
+//@   ghost oerr error = nil
+//@   at call Put#*: assert one-operation-on-the-store-the-gate-picked-with-the-requests-arguments: any(callrecv) == any(kv) && callarg0 == ctx && callarg1 == key && callarg2 == value && ops == 0
+//@   at after call Put#*: ghost oerr := callresult
+//@   at after call Put#*: ghost ops := ops + 1
+//@   ensures local-the-stores-answer-is-returned: ops == 1 && err == oerr
+
+//@ func (n *LocalNode) Get(ctx context.Context, key []byte) (val []byte, err error)
+//@   opt frame=off
+//@   safety off
+//@   use ids48
+//@   requires started: n.state != nil && n.state.history != nil && n.ID() < 281474976710656
+//@   ghost gates int = 0
+//@   ghost gerr error = nil
+//@   ghost gval []byte
+//@   at call kvMiddleware#*: assert the-gate-decides-on-this-requests-key: callarg0 == ctx && callarg1 == n && callarg2 == key && gates == 0
+//@   at after call kvMiddleware#*: ghost gval := callresult0
+//@   at after call kvMiddleware#*: ghost gerr := callresult1
+//@   at after call kvMiddleware#*: ghost gates := gates + 1
+//@   ensures local-the-gates-answer-is-returned: gates == 1 && err == gerr && val == gval
+
+//@ func (n *LocalNode) Get$1(ctx context.Context, kv chord.KV, target kvTargetType, id uint64) (r []byte, err error)
+//@   opt frame=off
+//@   safety off
+//@   ghost ops int = 0
+//@   ghost oerr error = nil
+//@   ghost oval []byte
+//@   at call Get#*: assert one-operation-on-the-store-the-gate-picked-with-the-requests-arguments: any(callrecv) == any(kv) && callarg0 == ctx && callarg1 == key && ops == 0
+//@   at after call Get#*: ghost oval := callresult0
+//@   at after call Get#*: ghost oerr := callresult1
+//@   at after call Get#*: ghost ops := ops + 1
+//@   ensures local-the-stores-answer-is-returned: ops == 1 && err == oerr && r == oval
+
+//@ func (n *LocalNode) Delete(ctx context.Context, key []byte) (err error)
+//@   opt frame=off
+//@   safety off
+//@   use ids48
+//@   requires started: n.state != nil && n.state.history != nil && n.ID() < 281474976710656
+//@   ghost gates int = 0
+//@   ghost gerr error = nil
+//@   at call kvMiddleware#*: assert the-gate-decides-on-this-requests-key: callarg0 == ctx && callarg1 == n && callarg2 == key && gates == 0
+//@   at after call kvMiddleware#*: ghost gerr := callresult1
+//@   at after call kvMiddleware#*: ghost gates := gates + 1
+//@   ensures local-the-gates-answer-is-returned: gates == 1 && err == gerr
+
+//@ func (n *LocalNode) Delete$1(ctx context.Context, kv chord.KV, target kvTargetType, id uint64) (r any, err error)
+//@   opt frame=off
+//@   safety off
+//@   ghost ops int = 0
+//@   ghost oerr error = nil
+//@   at call Delete#*: assert one-operation-on-the-store-the-gate-picked-with-the-requests-arguments: any(callrecv) == any(kv) && callarg0 == ctx && callarg1 == key && ops == 0
+//@   at after call Delete#*: ghost oerr := callresult
+//@   at after call Delete#*: ghost ops := ops + 1
+//@   ensures local-the-stores-answer-is-returned: ops == 1 && err == oerr
+
+//@ func (n *LocalNode) PrefixAppend(ctx context.Context, prefix []byte, child []byte) (err error)
+//@   opt frame=off
+//@   safety off
+//@   use ids48
+//@   requires started: n.state != nil && n.state.history != nil && n.ID() < 281474976710656
+//@   ghost gates int = 0
+//@   ghost gerr error = nil
+//@   at call kvMiddleware#*: assert the-gate-decides-on-this-requests-key: callarg0 == ctx && callarg1 == n && callarg2 == prefix && gates == 0
+//@   at after call kvMiddleware#*: ghost gerr := callresult1
+//@   at after call kvMiddleware#*: ghost gates := gates + 1
+//@   ensures local-the-gates-answer-is-returned: gates == 1 && err == gerr
+
+//@ func (n *LocalNode) PrefixAppend$1(ctx context.Context, kv chord.KV, target kvTargetType, id uint64) (r any, err error)
+//@   opt frame=off
+//@   safety off
+//@   ghost ops int = 0
+//@   ghost oerr error = nil
+//@   at call PrefixAppend#*: assert one-operation-on-the-store-the-gate-picked-with-the-requests-arguments: any(callrecv) == any(kv) && callarg0 == ctx && callarg1 == prefix && callarg2 == child && ops == 0
+//@   at after call PrefixAppend#*: ghost oerr := callresult
+//@   at after call PrefixAppend#*: ghost ops := ops + 1
+//@   ensures local-the-stores-answer-is-returned: ops == 1 && err == oerr
+
+//@ func (n *LocalNode) PrefixList(ctx context.Context, prefix []byte) (val [][]byte, err error)
+//@   opt frame=off
+//@   safety off
+//@   use ids48
+//@   requires started: n.state != nil && n.state.history != nil && n.ID() < 281474976710656
+//@   ghost gates int = 0
+//@   ghost gerr error = nil
+//@   ghost gval [][]byte
+//@   at call kvMiddleware#*: assert the-gate-decides-on-this-requests-key: callarg0 == ctx && callarg1 == n && callarg2 == prefix && gates == 0
+//@   at after call kvMiddleware#*: ghost gval := callresult0
+//@   at after call kvMiddleware#*: ghost gerr := callresult1
+//@   at after call kvMiddleware#*: ghost gates := gates + 1
+//@   ensures local-the-gates-answer-is-returned: gates == 1 && err == gerr && val == gval
+
+//@ func (n *LocalNode) PrefixList$1(ctx context.Context, kv chord.KV, target kvTargetType, id uint64) (r [][]byte, err error)
+//@   opt frame=off
+//@   safety off
+//@   ghost ops int = 0
+//@   ghost oerr error = nil
+//@   ghost oval [][]byte
+//@   at call PrefixList#*: assert one-operation-on-the-store-the-gate-picked-with-the-requests-arguments: any(callrecv) == any(kv) && callarg0 == ctx && callarg1 == prefix && ops == 0
+//@   at after call PrefixList#*: ghost oval := callresult0
+//@   at after call PrefixList#*: ghost oerr := callresult1
+//@   at after call PrefixList#*: ghost ops := ops + 1
+//@   ensures local-the-stores-answer-is-returned: ops == 1 && err == oerr && r == oval
+
+//@ func (n *LocalNode) PrefixContains(ctx context.Context, prefix []byte, child []byte) (val bool, err error)
+//@   opt frame=off
+//@   safety off
+//@   use ids48
+//@   requires started: n.state != nil && n.state.history != nil && n.ID() < 281474976710656
+//@   ghost gates int = 0
+//@   ghost gerr error = nil
+//@   ghost gval bool
+//@   at call kvMiddleware#*: assert the-gate-decides-on-this-requests-key: callarg0 == ctx && callarg1 == n && callarg2 == prefix && gates == 0
+//@   at after call kvMiddleware#*: ghost gval := callresult0
+//@   at after call kvMiddleware#*: ghost gerr := callresult1
+//@   at after call kvMiddleware#*: ghost gates := gates + 1
+//@   ensures local-the-gates-answer-is-returned: gates == 1 && err == gerr && val == gval
+
+//@ func (n *LocalNode) PrefixContains$1(ctx context.Context, kv chord.KV, target kvTargetType, id uint64) (r bool, err error)
+//@   opt frame=off
+//@   safety off
+//@   ghost ops int = 0
+//@   ghost oerr error = nil
+//@   ghost oval bool
+//@   at call PrefixContains#*: assert one-operation-on-the-store-the-gate-picked-with-the-requests-arguments: any(callrecv) == any(kv) && callarg0 == ctx && callarg1 == prefix && callarg2 == child && ops == 0
+//@   at after call PrefixContains#*: ghost oval := callresult0
+//@   at after call PrefixContains#*: ghost oerr := callresult1
+//@   at after call PrefixContains#*: ghost ops := ops + 1
+//@   ensures local-the-stores-answer-is-returned: ops == 1 && err == oerr && r == oval
+
+//@ func (n *LocalNode) PrefixRemove(ctx context.Context, prefix []byte, child []byte) (err error)
+//@   opt frame=off
+//@   safety off
+//@   use ids48
+//@   requires started: n.state != nil && n.state.history != nil && n.ID() < 281474976710656
+//@   ghost gates int = 0
+//@   ghost gerr error = nil
+//@   at call kvMiddleware#*: assert the-gate-decides-on-this-requests-key: callarg0 == ctx && callarg1 == n && callarg2 == prefix && gates == 0
+//@   at after call kvMiddleware#*: ghost gerr := callresult1
+//@   at after call kvMiddleware#*: ghost gates := gates + 1
+//@   ensures local-the-gates-answer-is-returned: gates == 1 && err == gerr
+
+//@ func (n *LocalNode) PrefixRemove$1(ctx context.Context, kv chord.KV, target kvTargetType, id uint64) (r any, err error)
+//@   opt frame=off
+//@   safety off
+//@   ghost ops int = 0
+//@   ghost oerr error = nil
+//@   at call PrefixRemove#*: assert one-operation-on-the-store-the-gate-picked-with-the-requests-arguments: any(callrecv) == any(kv) && callarg0 == ctx && callarg1 == prefix && callarg2 == child && ops == 0
+//@   at after call PrefixRemove#*: ghost oerr := callresult
+//@   at after call PrefixRemove#*: ghost ops := ops + 1
+//@   ensures local-the-stores-answer-is-returned: ops == 1 && err == oerr
+
+//@ func (n *LocalNode) Acquire(ctx context.Context, lease []byte, ttl time.Duration) (val uint64, err error)
+//@   opt frame=off
+//@   safety off
+//@   use ids48
+//@   requires started: n.state != nil && n.state.history != nil && n.ID() < 281474976710656
+//@   ghost gates int = 0
+//@   ghost gerr error = nil
+//@   ghost gval uint64
+//@   at call kvMiddleware#*: assert the-gate-decides-on-this-requests-key: callarg0 == ctx && callarg1 == n && callarg2 == lease && gates == 0
+//@   at after call kvMiddleware#*: ghost gval := callresult0
+//@   at after call kvMiddleware#*: ghost gerr := callresult1
+//@   at after call kvMiddleware#*: ghost gates := gates + 1
+//@   ensures local-the-gates-answer-is-returned: gates == 1 && err == gerr && val == gval
+
+//@ func (n *LocalNode) Acquire$1(ctx context.Context, kv chord.KV, target kvTargetType, id uint64) (r uint64, err error)
+//@   opt frame=off
+//@   safety off
+//@   ghost ops int = 0
+//@   ghost oerr error = nil
+//@   ghost oval uint64
+//@   at call Acquire#*: assert one-operation-on-the-store-the-gate-picked-with-the-requests-arguments: any(callrecv) == any(kv) && callarg0 == ctx && callarg1 == lease && callarg2 == ttl && ops == 0
+//@   at after call Acquire#*: ghost oval := callresult0
+//@   at after call Acquire#*: ghost oerr := callresult1
+//@   at after call Acquire#*: ghost ops := ops + 1
+//@   ensures local-the-stores-answer-is-returned: ops == 1 && err == oerr && r == oval
+
+//@ func (n *LocalNode) Renew(ctx context.Context, lease []byte, ttl time.Duration, prevToken uint64) (val uint64, err error)
+//@   opt frame=off
+//@   safety off
+//@   use ids48
+//@   requires started: n.state != nil && n.state.history != nil && n.ID() < 281474976710656
+//@   ghost gates int = 0
+//@   ghost gerr error = nil
+//@   ghost gval uint64
+//@   at call kvMiddleware#*: assert the-gate-decides-on-this-requests-key: callarg0 == ctx && callarg1 == n && callarg2 == lease && gates == 0
+//@   at after call kvMiddleware#*: ghost gval := callresult0
+//@   at after call kvMiddleware#*: ghost gerr := callresult1
+//@   at after call kvMiddleware#*: ghost gates := gates + 1
+//@   ensures local-the-gates-answer-is-returned: gates == 1 && err == gerr && val == gval
+
+//@ func (n *LocalNode) Renew$1(ctx context.Context, kv chord.KV, target kvTargetType, id uint64) (r uint64, err error)
+//@   opt frame=off
+//@   safety off
+//@   ghost ops int = 0
+//@   ghost oerr error = nil
+//@   ghost oval uint64
+//@   at call Renew#*: assert one-operation-on-the-store-the-gate-picked-with-the-requests-arguments: any(callrecv) == any(kv) && callarg0 == ctx && callarg1 == lease && callarg2 == ttl && callarg3 == prevToken && ops == 0
+//@   at after call Renew#*: ghost oval := callresult0
+//@   at after call Renew#*: ghost oerr := callresult1
+//@   at after call Renew#*: ghost ops := ops + 1
+//@   ensures local-the-stores-answer-is-returned: ops == 1 && err == oerr && r == oval
+
+//@ func (n *LocalNode) Release(ctx context.Context, lease []byte, token uint64) (err error)
+//@   opt frame=off
+//@   safety off
+//@   use ids48
+//@   requires started: n.state != nil && n.state.history != nil && n.ID() < 281474976710656
+//@   ghost gates int = 0
+//@   ghost gerr error = nil
+//@   at call kvMiddleware#*: assert the-gate-decides-on-this-requests-key: callarg0 == ctx && callarg1 == n && callarg2 == lease && gates == 0
+//@   at after call kvMiddleware#*: ghost gerr := callresult1
+//@   at after call kvMiddleware#*: ghost gates := gates + 1
+//@   ensures local-the-gates-answer-is-returned: gates == 1 && err == gerr
+
+//@ func (n *LocalNode) Release$1(ctx context.Context, kv chord.KV, target kvTargetType, id uint64) (r any, err error)
+//@   opt frame=off
+//@   safety off
+//@   ghost ops int = 0
+//@   ghost oerr error = nil
+//@   at call Release#*: assert one-operation-on-the-store-the-gate-picked-with-the-requests-arguments: any(callrecv) == any(kv) && callarg0 == ctx && callarg1 == lease && callarg2 == token && ops == 0
+//@   at after call Release#*: ghost oerr := callresult
+//@   at after call Release#*: ghost ops := ops + 1
+//@   ensures local-the-stores-answer-is-returned: ops == 1 && err == oerr
+
+// the receiving side of a hand-over: a node that is gone refuses (the sender then keeps its keys, see transferKeys*),
+// any other node stores exactly what it was sent, under its surrogate write lock, and reports the store's answer
+//@ func (n *LocalNode) Import(ctx context.Context, keys [][]byte, values []*protocol.KVTransfer) (err error)
+//@   opt frame=off
+//@   safety off
+//@   requires started: n.state != nil && n.state.history != nil
+//@   ghost st chord.State = 0
+//@   ghost reads int = 0
+//@   ghost locked bool = false
+//@   ghost imports int = 0
+//@   ghost ierr error = nil
+//@   at after call Get#*: ghost st := callresult
+//@   at after call Get#*: ghost reads := reads + 1
+//@   at call Lock#*: ghost locked := true
+//@   at call Import#*: assert stores-exactly-what-was-sent-under-the-surrogate-write-lock-unless-gone: any(callrecv) == any(n.kv) && callarg0 == ctx && callarg1 == keys && callarg2 == values && locked && imports == 0 && reads == 1 && st != chord.Inactive && st != chord.Leaving && st != chord.Left
+//@   at after call Import#*: ghost ierr := callresult
+//@   at after call Import#*: ghost imports := imports + 1
+//@   ensures local-a-node-that-is-gone-refuses-and-stores-nothing: (reads == 1 && (st == chord.Inactive || st == chord.Leaving || st == chord.Left)) ==> (err == chord.ErrNodeGone && imports == 0)
+//@   ensures local-otherwise-the-stores-answer-is-returned: (reads == 1 && st != chord.Inactive && st != chord.Leaving && st != chord.Left) ==> (imports == 1 && err == ierr)
